@@ -41,7 +41,7 @@ def run(ctx):
     obs = optprop.fired_observer(ctx)
     learned = {}
     nontriv = set()
-    for fam in ["optshapes", "optshapes2", "cjoins", "subq", "agg", "cte", "cte2"]:
+    for fam in ["optshapes", "optshapes2", "cjoins", "subq", "agg", "cte", "cte2", "samecols"]:
         cases = sqlcheck.load_corpus(fam, 1200 if ctx.tier == "thorough" else None)
         if ctx.tier != "thorough":
             random.Random(ctx.seed).shuffle(cases)
